@@ -89,3 +89,9 @@ def si_value(uv):
 def si_values(ua):
     s = scale(sysdict(ua.units.sys), dimdict(ua.units.dim))
     return [F(float(v)) * s for v in ua.value]
+
+
+def si_floats(ua):
+    """SI values as floats (tolerates inf/nan in the data)."""
+    s = float(scale(sysdict(ua.units.sys), dimdict(ua.units.dim)))
+    return [float(v) * s for v in ua.value]
